@@ -88,6 +88,7 @@ type checkOpts struct {
 	seed                    int
 	timeout                 int
 	workers                 int
+	keep                    bool
 	overlay                 map[string][]byte
 	quiet                   bool
 	noEvidence              bool
@@ -124,6 +125,7 @@ func cmdCheck(args []string) int {
 	fs.IntVar(&o.seed, "seed", 0, "")
 	fs.IntVar(&o.timeout, "timeout", 0, "per-obligation solver timeout (s)")
 	fs.IntVar(&o.workers, "workers", 8, "")
+	fs.BoolVar(&o.keep, "keep", false, "keep the SMT scripts of discharged obligations under out/")
 	fs.StringVar(&o.only, "only", "", "only obligations whose name contains this")
 	fs.BoolVar(&o.showNotes, "notes", false, "print imprecision notes")
 	fs.BoolVar(&o.noReplay, "noreplay", false, "do not replay counterexamples against the real code")
@@ -734,6 +736,18 @@ func runCheck(o checkOpts) *CheckOutcome {
 					"explanation": "an obligation that is discharged on the committed tree is no longer generated from the current source (function, loop or anchored instruction removed or renamed); the proof of the property no longer goes through"})
 				out.Violations = append(out.Violations, fmt.Sprintf("VIOLATION property=%s replay=%s obligation=%s no-failing-input-found", o.prop, path, name))
 			}
+		}
+	}
+	// scripts of discharged obligations are of no further use (about 400 MB per property); failing ones are kept, and a copy
+	// sits next to the replay file. VERIF_KEEP=1 (or -keep) keeps everything for debugging.
+	if !o.keep && os.Getenv("VERIF_KEEP") == "" {
+		for _, r := range results {
+			if r.OK && r.Script != "" {
+				os.Remove(r.Script)
+			}
+		}
+		if ents, err := os.ReadDir(outDir); err == nil && len(ents) == 0 {
+			os.Remove(outDir)
 		}
 	}
 	out.Wall = time.Since(t0).Seconds()
